@@ -293,6 +293,13 @@ func goStructure(c *Check, v *valTerms, name string) string {
 								inLit = true
 							}
 						}
+						// ... or inside a literal whose body runs as part of the goroutine (a per-iteration
+						// strategy closure called by it): the label's own instance is such a literal
+						for in := l.Node.Inst; in != nil && !inLit; in = in.Parent {
+							if li := litOfInstance(pg.G, in); li != nil && vp >= li.Pos() && vp <= li.End() {
+								inLit = true
+							}
+						}
 						if !inLit && l.Node.Note == "" {
 							badW = append(badW, c.P.pos(l.Node.Pos)+": goroutine assigns captured variable "+l.Key)
 						}
@@ -417,6 +424,12 @@ func checkC17(c *Check) {
 					return true
 				}
 				if _, isFunc := v.Type().Underlying().(*types.Signature); isFunc && (v.Pos() < lit.Pos() || v.Pos() > lit.End()) {
+					// a per-iteration strategy closure: declared inside the loop body that holds the go
+					// statement and only ever assigned function literals (its body is then analysed as
+					// part of the goroutine)
+					if perIterationClosure(fs, info, g, v) {
+						return true
+					}
 					bad = append(bad, c.P.pos(call.Pos())+": call of captured function value "+id.Name)
 				}
 				return true
@@ -578,4 +591,76 @@ func isResponseCallee(c *Check, name string) bool {
 		return sig.Results().Len() == 2 && c.P.typeStr(sig.Results().At(0).Type()) == "*net/http.Response"
 	}
 	return false
+}
+
+// litOfInstance: the function literal an inline instance was built from (by
+// its call position and the literal registry), if any.
+func litOfInstance(g *Graph, in *Instance) *ast.FuncLit {
+	if in == nil || in.Name != "lit" {
+		return nil
+	}
+	var best *ast.FuncLit
+	for _, li := range g.Lits {
+		if li.Lit != nil && li.Inst != nil {
+			// the instance's nodes lie inside the literal's source range
+			for _, n := range g.Nodes {
+				if n.Inst == in && n.Pos.IsValid() && n.Pos >= li.Lit.Pos() && n.Pos <= li.Lit.End() {
+					if best == nil || (li.Lit.End()-li.Lit.Pos()) < (best.End()-best.Pos()) {
+						best = li.Lit
+					}
+					break
+				}
+			}
+		}
+	}
+	return best
+}
+
+// perIterationClosure: v is declared inside the body of the innermost loop
+// around the go statement and every assignment to it is a function literal.
+func perIterationClosure(fs *FuncSrc, info *types.Info, g *ast.GoStmt, v *types.Var) bool {
+	var loopBody *ast.BlockStmt
+	ast.Inspect(fs.Decl.Body, func(n ast.Node) bool {
+		var body *ast.BlockStmt
+		switch x := n.(type) {
+		case *ast.ForStmt:
+			body = x.Body
+		case *ast.RangeStmt:
+			body = x.Body
+		}
+		if body != nil && g.Pos() >= body.Pos() && g.End() <= body.End() {
+			loopBody = body // innermost wins (inspected later)
+		}
+		return true
+	})
+	if loopBody == nil || v.Pos() < loopBody.Pos() || v.Pos() > loopBody.End() {
+		return false
+	}
+	ok, n := true, 0
+	ast.Inspect(fs.Decl.Body, func(m ast.Node) bool {
+		switch x := m.(type) {
+		case *ast.AssignStmt:
+			for i, l := range x.Lhs {
+				id, isId := l.(*ast.Ident)
+				if !isId || (info.Defs[id] != v && info.Uses[id] != v) {
+					continue
+				}
+				if len(x.Rhs) != len(x.Lhs) {
+					ok = false
+					continue
+				}
+				if _, isLit := ast.Unparen(x.Rhs[i]).(*ast.FuncLit); isLit {
+					n++
+				} else {
+					ok = false
+				}
+			}
+		case *ast.UnaryExpr:
+			if id, isId := ast.Unparen(x.X).(*ast.Ident); isId && x.Op == token.AND && info.Uses[id] == v {
+				ok = false
+			}
+		}
+		return true
+	})
+	return ok && n > 0
 }
